@@ -626,8 +626,11 @@ path = "src/lib.rs""#
             added_crates.insert("tokio");
         }
 
-        // Add dependencies from rust:: imports
-        for (crate_name, version_spec) in &self.rust_crate_deps {
+        // Add dependencies from rust:: imports, in name order (a HashMap iterates in a different order in every
+        // process, which made the generated Cargo.toml differ from run to run)
+        let mut rust_deps: Vec<(&String, &Option<String>)> = self.rust_crate_deps.iter().collect();
+        rust_deps.sort_by(|a, b| a.0.cmp(b.0));
+        for (crate_name, version_spec) in rust_deps {
             // Skip if already added above
             if added_crates.contains(crate_name.as_str()) {
                 continue;
